@@ -600,3 +600,45 @@ M('C19', 'c19-handler-added-in-place-no-lock', 'openhtf/util/logs.py',
   "    return match.group('test_uid') == self.test_uid",
   "    return match.group('test_uid') == self.test_uid or record.name.endswith('.phase.p')",
   'phase loggers named p of other runs leak in')
+
+# ---------------------------------------------------------------- C18
+M('C18', 'c18-snapshot-before-register', 'openhtf/util/__init__.py',
+  "    event = threading.Event()\n    with self._lock:\n      self._update_events.add(event)\n    return self._asdict(), event",
+  "    event = threading.Event()\n    state = self._asdict()\n    with self._lock:\n      self._update_events.add(event)\n    return state, event",
+  'state snapshot taken before the event is registered')
+M('C18', 'c18-clear-before-set', 'openhtf/util/__init__.py',
+  "      for event in self._update_events:\n        event.set()\n      self._update_events.clear()",
+  "      events = list(self._update_events)\n      self._update_events.clear()\n    for event in events[:1]:\n      event.set()",
+  'only the first registered watcher is woken')
+M('C18', 'c18-measurement-no-notify', 'openhtf/core/test_state.py',
+  "    self._update_measurements.add(measurement_name)\n    self.test_state.notify_update()",
+  "    self._update_measurements.add(measurement_name)",
+  'measurement assignments are not followed by a notification')
+M('C18', 'c18-phase-start-no-notify', 'openhtf/core/test_state.py',
+  "    self.notify_update()  # New phase started.",
+  "    pass  # New phase started.",
+  'no notification when a phase starts')
+M('C18', 'c18-phase-finished-no-notify', 'openhtf/core/test_state.py',
+  "      self.notify_update()  # Phase finished.",
+  "      pass  # Phase finished.",
+  'no notification when a phase finished')
+M('C18', 'c18-finalize-no-notify', 'openhtf/core/test_state.py',
+  "    self._status = self.Status.COMPLETED\n    self.notify_update()",
+  "    self._status = self.Status.COMPLETED",
+  'no notification when the test completes')
+M('C18', 'c18-log-no-notify', 'openhtf/util/logs.py',
+  "      self._test_record.add_log_record(log_record)\n      self._notify_update()",
+  "      self._test_record.add_log_record(log_record)",
+  'log records are not followed by a notification')
+M('C18', 'c18-dut-id-no-notify', 'openhtf/core/test_descriptor.py',
+  "    self.test_record.dut_id = dut_id\n    self.notify_update()",
+  "    self.test_record.dut_id = dut_id",
+  'setting the DUT id is not followed by a notification')
+M('C18', 'c18-userinput-remove-no-notify', 'openhtf/plugs/user_input.py',
+  "        self._console_prompt = None\n      self.notify_update()",
+  "        self._console_prompt = None",
+  'removing/answering a prompt is not followed by a notification')
+M('C18', 'c18-start-prompt-notify-early', 'openhtf/plugs/user_input.py',
+  "        self._console_prompt.start()\n\n      self.notify_update()\n      return prompt_id",
+  "        self._console_prompt.start()\n\n      return prompt_id",
+  'starting a prompt is not followed by a notification')
